@@ -7,7 +7,8 @@ WT = sys.argv[1]
 ids = sys.argv[2:]
 CRATE = {"C09": ("zcash_protocol", "components/zcash_protocol"), "C17z": ("zcash_protocol", "components/zcash_protocol"),
          "C16": ("zcash_pool_migration", "zcash_pool_migration"), "C17": ("zcash_pool_migration", "zcash_pool_migration"),
-         "C19": ("equihash", "components/equihash")}
+         "C19": ("equihash", "components/equihash"), "C12": ("zip321", "components/zip321"),
+         "C10": ("zcash_address", "components/zcash_address")}
 def run(cmd, cwd=WT):
     p = subprocess.run(cmd, cwd=cwd, shell=True, capture_output=True, text=True)
     return p.returncode, p.stdout + p.stderr
@@ -27,24 +28,39 @@ for sid in ids:
         for cd, cn, ft in [("zcash_client_backend", "zcash_client_backend", " --features orchard,transparent-inputs,unstable-spanning-tree"),
                            ("zcash_primitives", "zcash_primitives", ""), ("zcash_history", "zcash_history", ""),
                            ("zcash_pool_migration", "zcash_pool_migration", ""), ("components/zcash_protocol", "zcash_protocol", ""),
-                           ("zcash_client_sqlite", "zcash_client_sqlite", "")]:
+                           ("zcash_client_sqlite", "zcash_client_sqlite", ""), ("zcash_transparent", "zcash_transparent", ""),
+                           ("components/zcash_encoding", "zcash_encoding@0.5.0", "")]:
             if f0.startswith(cd + "/"):
                 cdir, crate, feats = cd, cn, ft
                 break
     run("git checkout -- . && git clean -fdq -e target")
     demo_name = sid.lower().replace("-", "_") + "_demo"
-    tdir = os.path.join(WT, cdir, "tests")
-    os.makedirs(tdir, exist_ok=True)
-    shutil.copyfile(os.path.join(d, "demo.rs"), os.path.join(tdir, demo_name + ".rs"))
     res = {}
-    rc, out = run(f"cargo test --offline -j 6 -p {crate}{feats} --test {demo_name} 2>&1 | tail -5")
-    res["demo_without_patch"] = "passes" if "test result: ok" in out else "FAILS"
-    rc, out = run(f"git apply {d}/patch.diff")
-    res["patch_applies"] = rc == 0
-    rc, out = run(f"cargo test --offline -j 6 -p {crate}{feats} --test {demo_name} 2>&1 | tail -8")
-    res["demo_with_patch"] = "fails" if ("test result: FAILED" in out or "error: test failed" in out) else "PASSES"
-    os.remove(os.path.join(tdir, demo_name + ".rs"))
-    extra = " -p zcash_pool_migration" if crate == "zcash_protocol" else ""
+    if os.path.exists(os.path.join(d, "demo.sh")):
+        # demonstration is a script that expects to live at <worktree>/SEEDED/<mN>/demo.sh
+        mdir = os.path.join(WT, "SEEDED", sid.split("-")[1])
+        shutil.rmtree(mdir, ignore_errors=True)
+        shutil.copytree(d, mdir)
+        rc, out = run(f"sh SEEDED/{sid.split('-')[1]}/demo.sh 2>&1 | tail -8")
+        res["demo_without_patch"] = "passes" if ("test result: ok" in out and "FAILED" not in out) else "FAILS"
+        rc, out = run(f"git apply {d}/patch.diff")
+        res["patch_applies"] = rc == 0
+        rc, out = run(f"sh SEEDED/{sid.split('-')[1]}/demo.sh 2>&1 | tail -12")
+        res["demo_with_patch"] = "fails" if ("test result: FAILED" in out or "error: test failed" in out) else "PASSES"
+        shutil.rmtree(os.path.join(WT, "SEEDED"), ignore_errors=True)
+    else:
+        tdir = os.path.join(WT, cdir, "tests")
+        os.makedirs(tdir, exist_ok=True)
+        shutil.copyfile(os.path.join(d, "demo.rs"), os.path.join(tdir, demo_name + ".rs"))
+        rc, out = run(f"cargo test --offline -j 6 -p {crate}{feats} --test {demo_name} 2>&1 | tail -5")
+        res["demo_without_patch"] = "passes" if "test result: ok" in out else "FAILS"
+        rc, out = run(f"git apply {d}/patch.diff")
+        res["patch_applies"] = rc == 0
+        rc, out = run(f"cargo test --offline -j 6 -p {crate}{feats} --test {demo_name} 2>&1 | tail -8")
+        res["demo_with_patch"] = "fails" if ("test result: FAILED" in out or "error: test failed" in out) else "PASSES"
+        os.remove(os.path.join(tdir, demo_name + ".rs"))
+    extra = {"zcash_protocol": " -p zcash_pool_migration", "zip321": " -p zcash_protocol", "zcash_address": " -p f4jumble",
+             "zcash_encoding@0.5.0": " -p zcash_history", "zcash_transparent": " -p zcash_primitives"}.get(crate, "")
     rc, out = run(f"cargo test --offline -j 6 -p {crate}{extra}{feats} 2>&1 | grep 'test result\\|error\\[' ")
     fails = [l for l in out.split("\n") if "FAILED" in l or "error[" in l]
     oks = re.findall(r"test result: ok\. (\d+) passed", out)
